@@ -325,6 +325,16 @@ def templates(w):
         for s in (w, w + 1, irsem.mask(w), 1 << (w - 1)):
             for m in (0, 1, 0x3f, irsem.mask(w)):
                 yield 'mask-shift-big', Op('>>', Op('&', x, I(m & irsem.mask(w))), I(s & irsem.mask(w)))
+    # 7b operator-pair grid: (x o2 m) o1 s and s o1 (x o2 m) for every pair of binary operators and boundary constants
+    # (black-box counterpart of the rule templates: a rule added for another operator pair is reached too)
+    K = sorted(set(v & irsem.mask(w) for v in (0, 1, w - 1, w, irsem.mask(w), 1 << (w - 1))))
+    BIN = ('+', '-', '*', '^', '&', '|', '<<', '>>', 'a>>', '<<<', '>>>')
+    for o1 in BIN:
+        for o2 in BIN:
+            for m in K:
+                for s_ in K:
+                    yield 'pair:%s:%s' % (o1, o2), Op(o1, Op(o2, x, I(m)), I(s_))
+                    yield 'pair-left:%s:%s' % (o1, o2), Op(o1, I(s_), Op(o2, x, I(m)))
     # 8 ==
     for c in few:
         yield 'eq', Op('==', Op('|', x, I(c)), I(0))
